@@ -278,6 +278,27 @@ func ruleC07(c *Ctx) {
 		c.floor("C07-R4/rsa-paths", 4)
 	}
 
+	// --- R4b: the EncryptedKey handed to DecryptSymmetricKey is one of the two decoded structs, whole
+	db := c.kernel("types.(*EncryptedAssertion).DecryptBytes")
+	if db != nil {
+		fname := shortFn(db.Root)
+		n := 0
+		for _, t := range db.Terms {
+			for _, e := range t.calls("(*types.EncryptedKey).DecryptSymmetricKey") {
+				n++
+				a := t.atoms()
+				recv := ap(e.Args[0])
+				inline := recv == "&EA.EncryptedKey" && a[`!(EA.EncryptedKey.CipherValue == "")`]
+				detached := recv == "&EA.DetEncryptedKey" && a[`EA.EncryptedKey.CipherValue == ""`]
+				c.check(inline || detached, "C07-R4/key-struct", fname, "EncryptedKey given to DecryptSymmetricKey", c.P.InstrPos(e.Instr), recv,
+					"DecryptSymmetricKey runs on "+recv+": not the inline EncryptedKey (when it has a CipherValue) nor the detached one as decoded — the recipient-certificate field checked may not belong to the key material used")
+				c.check(ap(e.Args[1]) == "CERT", "C07-R4/key-struct", fname, "certificate given to DecryptSymmetricKey", c.P.InstrPos(e.Instr), "caller's certificate", "key unwrap uses "+ap(e.Args[1]))
+			}
+		}
+		c.count("C07-R4/key-struct", n)
+		c.floor("C07-R4/key-struct", 2)
+	}
+
 	// --- R5 getDecryptCert
 	gc := c.kernel("(*SAMLServiceProvider).getDecryptCert")
 	if gc != nil {
